@@ -52,7 +52,10 @@ def stoich_job(interp, c, case):
         pd = {"rate": "k0*%s + 1" % POOL[1], "k0": 0.5}
         pd = {"rate": "0.5*%s + 1" % POOL[1]}
     if ldr or ldp:
-        rx = (re, pr, ptype, pd, "fixed", dre, dpr, {"delay": 1.0})
+        # delayed parts with a delay - or with no delay type at all (both forms are accepted; the delayed part is then
+        # applied together with the immediate one, but it is still part of the reaction)
+        nodelay = (len(re) + len(pr) + len(order)) % 2 == 1 if isinstance(order, (list, tuple)) else False
+        rx = (re, pr, ptype, pd, None, dre, dpr, {}) if nodelay else (re, pr, ptype, pd, "fixed", dre, dpr, {"delay": 1.0})
     else:
         rx = (re, pr, ptype, pd)
     # a second, fixed reaction so that column indices matter
@@ -60,7 +63,7 @@ def stoich_job(interp, c, case):
     M = T.ns["Model"](species=decl, reactions=[rx2, rx])
     U, D = M.py_get_update_array(), M.py_get_delay_update_array()
     idx = M.get_species2index()
-    rp = dict(kind="stoich", reactants=re, products=pr, dre=dre, dpr=dpr, order=decl, ptype=ptype)
+    rp = dict(kind="stoich", reactants=re, products=pr, dre=dre, dpr=dpr, order=decl, ptype=ptype, nodelay=bool((ldr or ldp) and nodelay))
     ok = True
     for s in POOL:
         want_u = pr.count(s) - re.count(s)
